@@ -36,7 +36,7 @@ ALPHA = ['"', "\\", "\n", "\r", "\t", "\x00", "\x7f", "\x80", "\xff", " ", "/", 
 
 def plan(tier, seed):
     n = 16 if tier == "quick" else 64
-    per = 2500 if tier == "quick" else 8000
+    per = 6000 if tier == "quick" else 25000
     return [{"seed": seed, "shard": i, "n": per} for i in range(n)]
 
 
